@@ -28,9 +28,10 @@ SRC = "module pgmod\n  !! module for page worlds\n  implicit none\ncontains\n  s
 
 def gen_case(seed, idx):
     rng = seeds.stream(seed, PROP, idx, "world")
-    tree = PM.gen_tree(rng, max_depth=rng.choice([1, 2, 3, 4]))
+    latin1 = rng.random() < 0.2
+    tree = PM.gen_tree(rng, max_depth=rng.choice([1, 2, 3, 4]), accent=latin1)
     PM.add_links(rng, tree)
-    case = {"idx": idx, "tree": tree, "missing_ordered": None}
+    case = {"idx": idx, "tree": tree, "missing_ordered": None, "latin1": latin1}
     if tree["index"] is not None and rng.random() < 0.08:
         case["missing_ordered"] = "nonexistent.md"
     return case
@@ -46,11 +47,22 @@ def layout(case):
     files["p/media/pic.png"] = "not a real png\n"
     opts = {"project": "Pages", "src_dir": "./src", "output_dir": "./doc", "preprocess": False, "parallel": 0,
             "search": False, "graph": False, "page_dir": "./pages", "media_dir": "./media", "copy_subdir": ["figs", "assets"]}
+    if case.get("latin1"):
+        # the project option `encoding` applies to every page file at every depth
+        opts["encoding"] = "iso-8859-1"
+        for k in list(files):
+            if k.startswith("p/pages/") and isinstance(files[k], str):
+                files[k] = enc_latin1(files[k])
     files["p/proj.md"] = W.render_project_file(opts)
     files["home/.keep"] = ""
     if not any(k.startswith("p/pages/") for k in files):
         files["p/pages"] = {"dir": True}
     return files
+
+
+def enc_latin1(text):
+    import base64
+    return {"b64": base64.b64encode(text.encode("iso-8859-1", "replace")).decode()}
 
 
 def torn_variant(case, rng):
@@ -148,7 +160,7 @@ def evaluate(case, seed, workdir, variants_spec=None, n_orders=4, n_torn=6, full
             for rel, kind in pl["tears"].items():
                 if rel in pages:
                     PM.tear(pages[rel], rel, kind)
-                    patch["p/pages/" + rel] = pages[rel]["torn_text"]
+                    patch["p/pages/" + rel] = enc_latin1(pages[rel]["torn_text"]) if case.get("latin1") else pages[rel]["torn_text"]
         variants.append({"driver": "c17_pagetree", "dir_order": pl["dir_order"], "fs_patch": patch})
         trees.append(tree)
     spec = {"sandbox": sb, "cwd": sb + "/p", "argv": ["ford", "proj.md"], "mode": "multi", "variants": variants,
